@@ -37,6 +37,16 @@ HISTORY = {
     "C18-3": "round 2. first run: missed; start/stop are now also passed as numpy scalars and arrays of signed and unsigned dtypes",
     "C19-3": "round 2. first run: missed; argmax/argmin are now also called with out= and the buffer is compared with the returned index (C19 and the C11 mirror entries argmax_out/argmin_out)",
     "C19-4": "round 2. needs retain_names=False: first run missed; set_dimensions now runs under random retain settings",
+    "C01-r3G1-1": "round 3 (agent given a file group and all twenty statements). first run: missed by C01 and C12; C01's leaves now include flat lists that mix plain Python numbers with narrow numpy scalars and narrow 0-d polynomials",
+    "C18-r3G2-1": "round 3. first run: missed by C18 and C03; the grid cases now also pass a vector start with a scalar stop and spell the number of dimensions as default / 1 / None / tuple of names / string (names compared, not just counted)",
+    "C11-r3G3-2": "round 3. first run: missed by C11 and C17; the copyto entry now also copies a constant polynomial into a plain numeric ndarray under a where= mask",
+    "C11-r3G4-1": "round 3. first run: missed; isclose / allclose now get operands whose distance lies inside the band where the relative tolerance of the *second* operand decides (rtol=0.1, factors 1.05 / 1.105 / 1.2, both orders)",
+    "C11-r3G7-1": "round 3. first run: missed by C11 and C15; constants of the mirror group are now sometimes stored with an explicit all-zero term of an indeterminate (before or after the constant term), and isfinite gets inf / nan values",
+    "C19-r3G8-1": "round 3. caught by C19; C11 and C15 missed it in the first run and C11 catches it now through the zero-term constants",
+    "C19-r3G8-2": "round 3. first run: missed by C19 and C06; float coefficients are now also scaled by 1e-300 .. 1e200 ('non-zero' is exact, not a tolerance)",
+    "C11-r3G10-2": "round 3. first run: missed by C11, C12 and C07; constants now come in narrow dtypes (int8..int32, uint8, float16/32) and the numeric division entries get float16/float32 dividends whose quotient is exact only in numpy's promoted dtype; patch rebased onto the repository fix of floor_divide's integer dtype",
+    "C09-r3G6-1": "round 3. the agent's demo asserted its own worktree path; that line was removed here",
+    "C11-r3G6-2": "round 3. the agent's demo asserted its own worktree path; that line was removed here",
     "C06-2": "first run: caught by C06, missed by C15; C15's derivative entry now differentiates with respect to several variables",
 }
 REJECTED = [
